@@ -223,7 +223,7 @@ Definition rs_cfg (d : deployment) (u : iupstream) : RespHeaders.config :=
      RespHeaders.c_cookie_name := dp_cookie_name d; RespHeaders.c_replace := up_replace u |}.
 Definition sg_cfg (d : deployment) (u : iupstream) (host : str) : Signer.cfg :=
   {| Signer.c_signer := dp_signer d; Signer.c_hmac := up_hmac u; Signer.c_skip := up_skip_sign u;
-     Signer.c_pass_token := false; Signer.c_cookie_name := dp_cookie_name d;
+     Signer.c_pass_token := false; Signer.c_inject := up_inject u; Signer.c_cookie_name := dp_cookie_name d;
      Signer.c_preserve_host := Hostmux.u_preserve (up_hm u);
      Signer.c_thost := Hostmux.target re_replace host (up_hm u); Signer.c_tpath := []; Signer.c_tquery := [] |}.
 
@@ -344,15 +344,36 @@ Record routed_out := {
   ro_calls : list call
 }.
 
+(* The Set-Cookie operations of ONE run of Authenticate, in order. ProxyCore keeps the final effect only;
+   when a due refresh / revalidation succeeds (SaveSession, oauthproxy.go:707,732) and the per-request
+   validators then refuse (748-760), the response carries the saved cookie FOLLOWED by the clearing one
+   (deferred ClearSession, 650-654). Whether the refusal came from the validators is read off a second
+   run under the same group rule without address / domain rules. *)
+Definition pol_open (pol : ProxyCore.upolicy) : ProxyCore.upolicy :=
+  {| ProxyCore.u_rules := {| p_addresses := []; p_domains := []; p_groups := p_groups (ProxyCore.u_rules pol) |};
+     ProxyCore.u_preflight := ProxyCore.u_preflight pol |}.
+Definition auth_ops (now : Z) (cfg : ProxyCore.cfg) (pol : ProxyCore.upolicy) (host : str) (ck : ProxyCore.cookie)
+    (a : ProxyCore.answers) : list RespHeaders.cookie_op :=
+  let o := ProxyCore.authenticate lower now cfg pol host ck a in
+  match ProxyCore.ao_err o with
+  | Some ProxyCore.ENotAuthorized =>
+      let o' := ProxyCore.authenticate lower now cfg (pol_open pol) host ck a in
+      match ProxyCore.ao_err o' with
+      | None => eff_ops (ProxyCore.ao_cookie o') ++ [RespHeaders.CkSession true]
+      | Some _ => [RespHeaders.CkSession true]
+      end
+  | _ => eff_ops (ProxyCore.ao_cookie o)
+  end.
+
 Definition page (xhr : bool) (code : N) : RespHeaders.lclass :=
   if xhr then RespHeaders.LXhr code else RespHeaders.LErrorPage code.
 
 (* OAuthProxy.Proxy after its Authenticate / whitelist decision (oauthproxy.go:581-636): [pr] is
-   ProxyCore's response; [pre_ops] / [pre_user] what an earlier Authenticate (Favicon) left on the writer *)
+   ProxyCore's response; [ops] the Set-Cookie operations so far (an earlier Authenticate of Favicon included),
+   [pre] the session that earlier Authenticate asserted *)
 Definition proxy_out (d : deployment) (u : iupstream) (q : request) (a : answers)
     (pr : ProxyCore.response) (pre : option ProxyCore.session)
-    (pre_ops : list RespHeaders.cookie_op) (sess : ProxyCore.cookie_effect) (calls : list ProxyCore.endpoint) : routed_out :=
-  let ops := pre_ops ++ eff_ops (ProxyCore.rs_cookie pr) in
+    (ops : list RespHeaders.cookie_op) (sess : ProxyCore.cookie_effect) (calls : list ProxyCore.endpoint) : routed_out :=
   let pre_user := match pre with Some s => Some (ProxyCore.s_email s) | None => None end in
   match ProxyCore.rs_out pr with
   | ProxyCore.Forward id =>
@@ -381,6 +402,10 @@ Definition local (c : RespHeaders.lclass) (ops : list RespHeaders.cookie_op) (us
 Definition router (d : deployment) (u : iupstream) (q : request) (a : answers) (now : Z) : routed_out :=
   let cfg := pc_cfg d u in
   let pol := pc_pol u in
+  let aops := auth_ops now cfg pol (rq_host q) (session_cookie d q) (an_auth a) in
+  (* Proxy's own Authenticate does not run for a whitelisted request *)
+  let pops (ep : ProxyCore.which_endpoint) :=
+    if ProxyCore.whitelisted pol (pc_request d u q ep) then [] else aops in
   if negb (str_eqb (ReqUri.clean_path (rq_path q)) (rq_path q)) then
     (* mux.Router.ServeHTTP: 301 to the cleaned path before any route is matched *)
     local RespHeaders.LMuxRedirect [] None (ReqUri.clean_path (rq_path q)) LkClean ProxyCore.CNone []
@@ -409,27 +434,27 @@ Definition router (d : deployment) (u : iupstream) (q : request) (a : answers) (
       let pr := ProxyCore.handle lower now cfg pol (pc_request d u q ProxyCore.EAuthOnly) (an_auth a) in
       let o := ProxyCore.authenticate lower now cfg pol (rq_host q) (session_cookie d q) (an_auth a) in
       match ProxyCore.ao_err o with
-      | None => local RespHeaders.LAuthOnly202 (eff_ops (ProxyCore.ao_cookie o))
+      | None => local RespHeaders.LAuthOnly202 aops
                       (match ProxyCore.ao_session o with Some s => Some (ProxyCore.s_email s) | None => None end)
                       [] LkNone (ProxyCore.rs_cookie pr) (map call_of (ProxyCore.rs_calls pr))
-      | Some _ => local RespHeaders.LAuthOnly401 (eff_ops (ProxyCore.ao_cookie o)) None [] LkNone
+      | Some _ => local RespHeaders.LAuthOnly401 aops None [] LkNone
                         (ProxyCore.rs_cookie pr) (map call_of (ProxyCore.rs_calls pr))
       end
   | RtFavicon =>                                                            (* oauthproxy.go:223-230 *)
       let pr := ProxyCore.handle lower now cfg pol (pc_request d u q ProxyCore.EFavicon) (an_auth a) in
       let o := ProxyCore.authenticate lower now cfg pol (rq_host q) (session_cookie d q) (an_auth a) in
       match ProxyCore.ao_err o with
-      | Some _ => local RespHeaders.LFavicon404 (eff_ops (ProxyCore.ao_cookie o)) None [] LkNone
+      | Some _ => local RespHeaders.LFavicon404 aops None [] LkNone
                         (ProxyCore.rs_cookie pr) (map call_of (ProxyCore.rs_calls pr))
       | None =>
           proxy_out d u q a
             (ProxyCore.proxy_handle lower now cfg pol (pc_request d u q ProxyCore.EFavicon) (an_auth a))
-            (ProxyCore.ao_session o) (eff_ops (ProxyCore.ao_cookie o))
+            (ProxyCore.ao_session o) (aops ++ pops ProxyCore.EFavicon)
             (ProxyCore.rs_cookie pr) (ProxyCore.rs_calls pr)
       end
   | RtProxy =>                                                              (* oauthproxy.go:559-637 *)
       let pr := ProxyCore.handle lower now cfg pol (pc_request d u q ProxyCore.EProxy) (an_auth a) in
-      proxy_out d u q a pr None [] (ProxyCore.rs_cookie pr) (ProxyCore.rs_calls pr)
+      proxy_out d u q a pr None (pops ProxyCore.EProxy) (ProxyCore.rs_cookie pr) (ProxyCore.rs_calls pr)
   end.
 
 (* the handler chain of one upstream (oauthproxy.go:159-169): setSecurityHeaders > overrides >
